@@ -141,6 +141,9 @@ func (w *Writer) WriteMessage(message any, codec Codec) (err error) {
 	messageDesc := QueryMessageDesc(message)
 
 	if messageDesc.IsOutside() {
+		if codec == nil {
+			return fmt.Errorf("no codec configured for message type %T", message)
+		}
 		data, encErr := codec.Encode(message)
 		if encErr != nil {
 			return encErr
@@ -430,6 +433,12 @@ func (w *Writer) WriteShortStringPtr(v *string) *Writer {
 // 返回 Writer 自身，支持链式调用
 func (w *Writer) Write(v interface{}) *Writer {
 	if w.err != nil {
+		return w
+	}
+
+	// 带类型的 nil 指针：下面的指针分支会直接解引用
+	if rv := reflect.ValueOf(v); rv.Kind() == reflect.Ptr && rv.IsNil() {
+		w.err = fmt.Errorf("cannot write nil pointer: %T", v)
 		return w
 	}
 
